@@ -10,7 +10,7 @@ use std::collections::BTreeSet;
 pub const HOSTILE_MODES: &[&str] = &[
     "empty-string", "blank-string", "control-character", "noncharacter", "extreme-date", "bytes-value-utf8", "bytes-value-not-utf8",
     "reserved-time-name", "non-name-time-key", "empty-custom-data-key", "blank-field-key", "tag-with-separator-or-blank",
-    "empty-icon-data", "empty-binary-content",
+    "empty-icon-data", "empty-binary-content", "empty-compressed-binary-content",
 ];
 
 pub struct Gen<'a> {
@@ -38,6 +38,15 @@ impl<'a> Gen<'a> {
     }
     fn feat(&mut self, f: &str) {
         self.features.insert(f.to_string());
+    }
+    /// an optional UUID: absent, random, all zero or all ones (the all-zero UUID is a value like any other)
+    pub fn opt_uuid_edge(&mut self) -> Option<uuid::Uuid> {
+        match self.rng.below(6) {
+            0 | 1 => None,
+            2 => Some(uuid::Uuid::nil()),
+            3 => Some(uuid::Uuid::from_bytes([0xff; 16])),
+            _ => Some(self.uuid()),
+        }
     }
     pub fn uuid(&mut self) -> uuid::Uuid {
         self.next_uuid += 1;
@@ -298,12 +307,12 @@ impl<'a> Gen<'a> {
             m.custom_icons.icons.push(Icon { uuid: u, data });
         }
         m.recyclebin_enabled = match self.rng.below(3) { 0 => None, 1 => Some(true), _ => Some(false) };
-        m.recyclebin_uuid = if self.rng.chance(1, 2) { Some(self.uuid()) } else { None };
+        m.recyclebin_uuid = self.opt_uuid_edge();
         m.recyclebin_changed = self.opt_time();
-        m.entry_templates_group = if self.rng.chance(1, 2) { Some(self.uuid()) } else { None };
+        m.entry_templates_group = self.opt_uuid_edge();
         m.entry_templates_group_changed = self.opt_time();
-        m.last_selected_group = if self.rng.chance(1, 2) { Some(self.uuid()) } else { None };
-        m.last_top_visible_group = if self.rng.chance(1, 2) { Some(self.uuid()) } else { None };
+        m.last_selected_group = self.opt_uuid_edge();
+        m.last_top_visible_group = self.opt_uuid_edge();
         m.history_max_items = if self.rng.chance(1, 2) { Some(self.usize_()) } else { None };
         m.history_max_size = if self.rng.chance(1, 2) { Some(self.usize_()) } else { None };
         m.settings_changed = self.opt_time();
@@ -317,13 +326,25 @@ impl<'a> Gen<'a> {
                 // very compressible and large: expands far more than 100:1 when read back
                 content = vec![self.rng.next() as u8; 200_000 + self.rng.below(1000) as usize];
             }
+            let mut compressed = self.rng.chance(1, 2);
             if self.on("empty-binary-content", 1, 2) {
+                // an empty attachment stored uncompressed is written as an empty element (a known finding); stored compressed it
+                // is a 20-byte gzip stream and reads back
                 content.clear();
+                compressed = false;
                 self.feat("empty-binary-content");
+            } else if self.on("empty-compressed-binary-content", 1, 2) {
+                // … which must keep working: the library's own reader wants text in a <Binary> element
+                content.clear();
+                compressed = true;
+                self.feat("empty-compressed-binary-content");
+            } else if !self.hostile && self.rng.chance(1, 8) {
+                content.clear();
+                compressed = true;
             }
             m.binaries.binaries.push(BinaryAttachment {
                 identifier: match self.rng.below(3) { 0 => None, 1 => Some(format!("{}", i)), _ => Some(String::new()) },
-                compressed: self.rng.chance(1, 2),
+                compressed,
                 content,
             });
         }
